@@ -17,7 +17,7 @@ ASSUMPTIONS = ["the functional helpers' documented uint8 default is respected: d
 EXHAUSTIVE = {"quick": ["all strings len<=3 over AB as A and B, 6 weight triples", "pdist layout for every m in 2..9"],
               "thorough": ["all strings len<=4 over AB as A and B, 14 weight triples", "all strings len<=3 over ABC, 6 weight triples", "pdist layout for every m in 2..14"]}
 REQUIRE = {"cdist_cells_checked": 2328, "pdist_entries_checked": 500, "asymmetric_weight_cases": 20, "sub_gt_ins_plus_del_cases": 5,
-           "long_string_pairs": 5, "functional_pdist_cases": 14, "functional_cdist_cases": 10, "kwargs_forwarded_checked": 5,
+           "long_string_pairs": 5, "functional_pdist_cases": 10, "functional_cdist_cases": 10, "kwargs_forwarded_checked": 5,
            "float_callable_cases": 5, "squareform_roundtrips": 15, "default_metric_kwargs_cases": 5}
 SHARDS = {"quick": 4, "thorough": 16}
 WEIGHTS = [(1, 1, 1), (2, 5, 3), (5, 2, 3), (1, 1, 7), (3, 1, 1), (1, 3, 2), (2, 2, 1), (1, 2, 4), (4, 1, 9), (7, 7, 7),
@@ -44,6 +44,7 @@ def k_metric(ctx, A, B, w, plain=False, container=None):
     from scipy.spatial.distance import squareform
     ins, dele, sub = (1, 1, 1) if plain else w
     m = _metric(ins, dele, sub, plain)
+    _decoy = _metric(ins + 3, dele + 6, sub + 2, False)        # another metric object built afterwards must not influence m
     name = "Levenshtein" if plain else "WeightedLevenshtein"
     if ins != dele:
         ctx.count("asymmetric_weight_cases")
@@ -245,6 +246,10 @@ def generate(tier, seed):
     for i in range(100 * TS if thorough else 8):
         rep = G.repertoire(rng, rng.randint(8, 40))
         yield "metric", {"A": rep, "B": rep[:7], "w": [rng.randint(1, 4), rng.randint(1, 4), rng.randint(1, 6)]}, i < 3
+    # collections of more than 100 (short) strings: size-dependent paths
+    for i in range(12 if thorough else 3):
+        X = [G.rand_string(rng, "ACD", 0, 5) for _ in range(rng.randint(101, 140))]
+        yield "metric", {"A": X, "B": X[:4], "w": [[2, 5, 3], [1, 3, 1], [1, 1, 1]][i % 3], "plain": i % 3 == 2}, True
     # long strings (no wrap-around): lengths up to 400, completely different / nearly identical
     lens = [(300, 300), (400, 400), (256, 255), (400, 0), (0, 300), (257, 300), (130, 400), (399, 400)]
     for i, (la, lb) in enumerate(lens if not thorough else lens * 4):
@@ -275,6 +280,8 @@ def generate(tier, seed):
         if mode == "default_weights":
             kw = {"weights": [rng.randint(1, 3), rng.randint(1, 3), rng.randint(1, 5)]}
         p = {"X": X, "mode": mode, "kw": kw}
+        if i % 6 == 1:
+            p["B"] = list(X)          # the two collections are equal: still a full rectangular evaluation, not a mirrored pdist
         if i % 2 == 0:
             p["B"] = rng.sample(names, rng.randint(1, 7)) if mode not in ("default", "default_weights") else G.small_multiset(rng, G.universe("ACD", 4), 1, 6)
         yield "fn", p, i < 40
